@@ -9,6 +9,8 @@ use swc_vue_jsx_visitor::Options;
 
 struct Ctx {
     resolve_type: bool,
+    /// syntax context of the `defineComponent` binding imported by name from 'vue' (None: no such import)
+    vue_dc_ctxt: Option<u64>,
     nodes: usize,
     jsx_skipped: usize,
     generated_items: usize,
@@ -59,8 +61,33 @@ fn fail(path: &str, why: &str, a: &Value, b: &Value) -> Res {
     Err((path.to_string(), why.to_string(), format!("in={} out={}", short(a), short(b))))
 }
 
-fn is_define_component_callee(v: &Value) -> bool {
-    ty(v) == Some("Identifier") && v.get("value").and_then(|x| x.as_str()) == Some("defineComponent")
+fn is_define_component_callee(v: &Value, vue_dc_ctxt: Option<u64>) -> bool {
+    ty(v) == Some("Identifier")
+        && v.get("value").and_then(|x| x.as_str()) == Some("defineComponent")
+        && vue_dc_ctxt.is_some()
+        && v.get("ctxt").and_then(|x| x.as_u64()) == vue_dc_ctxt
+}
+
+/// `import { defineComponent } from 'vue'` (not aliased): the local binding's syntax context
+fn find_vue_define_component(module: &Value) -> Option<u64> {
+    let body = module.get("body")?.as_array()?;
+    for item in body {
+        if ty(item) != Some("ImportDeclaration") {
+            continue;
+        }
+        if item.get("source").and_then(|s| s.get("value")).and_then(|x| x.as_str()) != Some("vue") {
+            continue;
+        }
+        for spec in item.get("specifiers").and_then(|s| s.as_array()).into_iter().flatten() {
+            if ty(spec) == Some("ImportSpecifier") && spec.get("imported").map(|i| i.is_null()).unwrap_or(true) {
+                let local = spec.get("local")?;
+                if local.get("value").and_then(|x| x.as_str()) == Some("defineComponent") {
+                    return local.get("ctxt").and_then(|x| x.as_u64());
+                }
+            }
+        }
+    }
+    None
 }
 
 fn prop_key_name(p: &Value) -> Option<String> {
@@ -125,6 +152,17 @@ fn walk(cx: &mut Ctx, a: &Value, b: &Value, path: &str) -> Res {
                 cx.jsx_skipped += 1;
                 return Ok(());
             }
+            // brace-less loop body containing JSX -> block { generated decls; original statement }
+            if ty(a) != Some("BlockStatement") && ty(b) == Some("BlockStatement") && is_dummy_span(b) && ty(a).map(|t| t.ends_with("Statement") || t.ends_with("Declaration")).unwrap_or(false) && contains_jsx(a) {
+                let stmts = b.get("stmts").and_then(|s| s.as_array()).cloned().unwrap_or_default();
+                if let Some((last, decls)) = stmts.split_last() {
+                    if decls.iter().all(is_generated_item) {
+                        cx.generated_items += decls.len();
+                        return walk(cx, a, last, &format!("{path}.body"));
+                    }
+                }
+                return fail(path, "statement replaced by a block that holds more than generated declarations + the statement", a, b);
+            }
             // arrow with expression body containing JSX -> block { generated decls; return body }
             if ty(a) == Some("ArrowFunctionExpression") && ty(b) == Some("ArrowFunctionExpression") {
                 let ab = a.get("body").unwrap_or(&Value::Null);
@@ -153,7 +191,7 @@ fn walk(cx: &mut Ctx, a: &Value, b: &Value, path: &str) -> Res {
                 }
             }
             // defineComponent(...) under resolveType: the options argument may be augmented
-            if cx.resolve_type && ty(a) == Some("CallExpression") && ty(b) == Some("CallExpression") && a.get("callee").map(is_define_component_callee).unwrap_or(false) {
+            if cx.resolve_type && ty(a) == Some("CallExpression") && ty(b) == Some("CallExpression") && a.get("callee").map(|c| is_define_component_callee(c, cx.vue_dc_ctxt)).unwrap_or(false) {
                 let aa = a.get("arguments").and_then(|x| x.as_array()).cloned().unwrap_or_default();
                 let ba = b.get("arguments").and_then(|x| x.as_array()).cloned().unwrap_or_default();
                 if aa.len() <= 2 && ba.len() <= 2 && !aa.is_empty() && !ba.is_empty() {
@@ -224,6 +262,7 @@ pub fn check(input: &Program, raw: &Program, options: &Options) -> Value {
     };
     let mut cx = Ctx {
         resolve_type: options.resolve_type,
+        vue_dc_ctxt: find_vue_define_component(&a),
         nodes: 0,
         jsx_skipped: 0,
         generated_items: 0,
